@@ -143,13 +143,26 @@ def run(repo: Repo, ctx) -> None:
         if not tests:
             return False, 'guard test not found'
         t = tests[0]
-        # first real node after entry (skip docstring/comments)
-        first = [s for s, _ in g.nodes[g.entry].succ]
-        while len(first) == 1 and isinstance(
-                g.nodes[first[0]].ast, ast.Expr) and isinstance(
-                g.nodes[first[0]].ast.value, ast.Constant):
-            first = [s for s, lab in g.nodes[first[0]].succ if lab == 'n']
-        if first != [t.id]:
+        # nothing with an effect on the object happens before the guard:
+        # every statement that calls a method of / assigns through `self`
+        # is dominated by the guard
+        def effectful(n):
+            if n.ast is None or n.id == t.id:
+                return False
+            for e in g.node_exprs(n):
+                for x in ast.walk(e):
+                    if isinstance(x, ast.Call) and norm(x.func).startswith(
+                            'self.') and norm(x) != test_txt:
+                        return True
+            if isinstance(n.ast, (ast.Assign, ast.AugAssign)):
+                tg = n.ast.targets if isinstance(n.ast, ast.Assign) \
+                    else [n.ast.target]
+                if any(norm(x).startswith('self.') for x in tg):
+                    return True
+            return False
+        early = [n.id for n in g.nodes if effectful(n)
+                 and not g.always_before(n.id, [t.id])]
+        if early:
             return False, 'guard is not the first statement'
         succ = [s for s, lab in g.nodes[t.id].succ if lab == polarity]
         r = g.reachable(succ) | set(succ)
